@@ -14,7 +14,7 @@ func init() { register("C18", checkC18) }
 const pParserAST = "github.com/arana-db/parser/ast"
 
 func checkC18(r *core.Run) {
-	r.Explain = "The property itself (recorded image == rows the statement changed) ranges over database contents and is NOT decidable statically. Three structural necessary conditions are decided: (C18.derive) the before-image SELECT of update/delete (and their multi-statement variants) takes From/Where/OrderBy/Limit from the business statement's own AST nodes and locks FOR UPDATE, and the argument selection traverses exactly the expression-bearing clauses that were copied; (C18.markers) the parameter-marker collector is complete: it walks the expression with the parser's visitor, or its type switch covers every expression node type of the parser that has expression children and recurses into all of them; (C18.scan) the scan-type table and the JDBC code table agree for every MySQL data type (no integer scan type for a binary/text code and the like)."
+	r.Explain = "The property itself (recorded image == rows the statement changed) ranges over database contents and is NOT decidable statically. Three structural necessary conditions are decided: (C18.derive) the before-image SELECT of update/delete (and their multi-statement variants) takes From/Where/OrderBy/Limit from the business statement's own AST nodes and locks FOR UPDATE, and the argument selection traverses exactly the expression-bearing clauses that were copied; (C18.markers) the parameter-marker collector is complete: it walks the expression with the parser's visitor, or its type switch covers every expression node type of the parser that has expression children and recurses into all of them; (C18.scan) the scan-type table and the JDBC code table agree for every MySQL data type (no integer scan type for a binary/text code and the like); (C18.fresh) util.ScanRows.Scan leaves a destination untouched when the source column is NULL, so every call to it inside a row loop gets destinations created inside that loop iteration (a destination slice built once per result set makes a NULL column of a later row keep the previous row's value)."
 	r.Trusted = []string{"go/types", "github.com/arana-db/parser: Accept visits every child node", "MySQL information_schema DATA_TYPE spellings (reference list)"}
 	w := r.W
 	_, live := liveATExecutors(w)
@@ -205,6 +205,8 @@ func checkC18(r *core.Run) {
 	r.Floor("C18.derive", 10)
 	r.Floor("C18.markers", 1)
 	r.Floor("C18.scan", 28)
+	c18Fresh(r)
+	r.Floor("C18.fresh", 2)
 }
 
 // c18Markers: visitor-based, or a total type switch.
@@ -358,4 +360,86 @@ func c18Markers(r *core.Run, col *core.FuncInfo) {
 	r.Sites++
 	r.Check(len(missing) == 0, "C18.markers", key+" covers every expression node that has expression children", w.Pos(col.Decl.Pos()), "total type switch",
 		"the marker collector's type switch neither uses the parser's visitor nor covers: "+strings.Join(missing, ", ")+" — parameter markers inside those expressions are not collected, so the before-image query is executed with fewer arguments than placeholders")
+}
+
+// c18Fresh: destinations handed to (*util.ScanRows).Scan inside a loop are created in that loop's body.
+func c18Fresh(r *core.Run) {
+	w := r.W
+	sr := w.NamedType("pkg/datasource/sql/util", "ScanRows")
+	if sr == nil {
+		r.Anchor("C18.fresh", nil, "util.ScanRows")
+		return
+	}
+	scan := w.MethodOf(sr, "Scan")
+	if scan == nil {
+		r.Anchor("C18.fresh", nil, "util.ScanRows.Scan")
+		return
+	}
+	for _, f := range w.SortedFuncs() {
+		if w.IsTestFile(f.Decl.Pos()) || f.Decl.Body == nil {
+			continue
+		}
+		info := f.Pkg.TypesInfo
+		var stack []ast.Node
+		ast.Inspect(f.Decl.Body, func(n ast.Node) bool {
+			if n == nil {
+				stack = stack[:len(stack)-1]
+				return true
+			}
+			stack = append(stack, n)
+			call, ok := n.(*ast.CallExpr)
+			if !ok || core.Callee(info, call) != scan {
+				return true
+			}
+			var loop ast.Node
+			var body *ast.BlockStmt
+			for i := len(stack) - 1; i >= 0 && loop == nil; i-- {
+				switch l := stack[i].(type) {
+				case *ast.ForStmt:
+					loop, body = l, l.Body
+				case *ast.RangeStmt:
+					loop, body = l, l.Body
+				case *ast.FuncLit:
+					i = -1
+				}
+			}
+			if loop == nil {
+				return true // a single row is read: nothing to carry over
+			}
+			r.Fn(f)
+			r.Sites++
+			key := core.ShortKey(f.Obj) + " scan destinations are created per row"
+			pos := w.Pos(call.Pos())
+			bad := ""
+			for _, a := range call.Args {
+				var v types.Object
+				switch x := ast.Unparen(a).(type) {
+				case *ast.Ident:
+					v = core.ObjOf(info, x)
+				case *ast.UnaryExpr:
+					v = core.ObjOf(info, x.X)
+				}
+				if v == nil {
+					bad = "destination '" + core.ExprString(a) + "' is not a plain variable"
+					break
+				}
+				if v.Pos() >= body.Pos() && v.Pos() < body.End() {
+					// declared in the loop body; every assignment must be a fresh value (a call or literal), not an outer slice
+					if lv, ok := v.(*types.Var); ok {
+						for _, d := range localDefs(f, lv) {
+							switch ast.Unparen(d.rhs).(type) {
+							case *ast.CallExpr, *ast.CompositeLit:
+							default:
+								bad = "destination '" + v.Name() + "' is assigned from '" + core.ExprString(d.rhs) + "', which may outlive the row"
+							}
+						}
+					}
+					continue
+				}
+				bad = "destination '" + v.Name() + "' is created outside the row loop and reused for every row"
+			}
+			r.Check(bad == "", "C18.fresh", key, pos, "fresh destinations for each row", bad+": ScanRows.Scan skips NULL source columns, so a NULL in a later row keeps the value scanned from an earlier row and the recorded image contains values the row never had")
+			return true
+		})
+	}
 }
